@@ -45,7 +45,7 @@ deriving Inhabited
 inductive Outcome
   | accept (v : Val)
   | error (e : ParseErr)
-  | panic (msg : String)
+  | panic (p : Panic)
   | fuelOut
 
 structure St where
@@ -101,14 +101,14 @@ def nextToken (s : St) : St × NextToken :=
 /-- the generated `__reduce`: `none` = continue, `some o` = the parse is over -/
 def reduce (s : St) (p : Nat) (laStart : Option Nat) : St × Option Outcome :=
   match T.prods[p]? with
-  | none => (s, some (.panic s!"invalid action code {p}"))
+  | none => (s, some (.panic ⟨.driver, s!"invalid action code {p}"⟩))
   | some prod =>
     let k := prod.rhs.length
-    if s.syms.length < k then (s, some (.panic "reduce: symbol stack underflow")) else
+    if s.syms.length < k then (s, some (.panic ⟨.driver, "reduce: symbol stack underflow"⟩)) else
     let popped := (s.syms.take k).reverse
     let rest := s.syms.drop k
     if popped.map (·.name) != prod.rhs then
-      (s, some (.panic s!"reduce {p}: symbol mismatch, expected {prod.rhs}, found {popped.map (·.name)}")) else
+      (s, some (.panic ⟨.driver, s!"reduce {p}: symbol mismatch, expected {prod.rhs}, found {popped.map (·.name)}"⟩)) else
     let start := match popped.head? with
       | some f => f.start
       | none => (laStart.orElse fun _ => rest.head?.map (·.stop)).getD 0
@@ -123,7 +123,7 @@ def reduce (s : St) (p : Nat) (laStart : Option Nat) : St × Option Outcome :=
       let s := { s with diags := diags }
       if prod.accept then ({ s with syms := rest }, some (.accept v)) else
       let s := { s with syms := { start, name := prod.lhs, val := v, stop } :: rest }
-      if s.states.length < prod.pops + 1 then (s, some (.panic "reduce: state stack underflow")) else
+      if s.states.length < prod.pops + 1 then (s, some (.panic ⟨.driver, "reduce: state stack underflow"⟩)) else
       let states := s.states.drop prod.pops
       let next := gotoOf T (states.headD 0) prod.nt
       ({ s with states := next :: states }, none)
@@ -212,14 +212,14 @@ def errorRecovery (s : St) (la : Option Token) (col : Option Nat) (fuel : Nat) :
       let states := s.states.drop (statesLen - 1 - top)      -- truncate(top + 1)
       let syms := (symsV.take top).reverse                    -- truncate(top)
       match asShift (errorAction T (states.headD 0)) with
-      | none => (s, .done (.panic "error_recovery: error_action.as_shift().unwrap()"))
+      | none => (s, .done (.panic ⟨.driver, "error_recovery: error_action.as_shift().unwrap()"⟩))
       | some errState =>
         let s := { s with states := errState :: states,
                           syms := { start, name := "error", val := .recovery error dropped, stop } :: syms }
         match la, col with
         | some l, some c => (s, .found l c)
         | none, none => (s, .eof)
-        | _, _ => (s, .done (.panic "lookahead and token_index mismatched"))
+        | _, _ => (s, .done (.panic ⟨.driver, "lookahead and token_index mismatched"⟩))
 
 /-- `parse_eof` -/
 def parseEof (s : St) : Nat → St × Outcome
@@ -232,7 +232,7 @@ def parseEof (s : St) : Nat → St × Outcome
       | (s, none) => parseEof s fuel
     | none =>
       match errorRecovery T env s none none fuel with
-      | (s, .found _ _) => (s, .panic "cannot find token at EOF")
+      | (s, .found _ _) => (s, .panic ⟨.driver, "cannot find token at EOF"⟩)
       | (s, .done o) => (s, o)
       | (s, .eof) => parseEof s fuel
 
@@ -274,7 +274,7 @@ def parseLoop (s : St) : Nat → St × Outcome
 /-- the result handling of `Parser::add_content` (its `match rule_result`) -/
 def finish (id : String) (s : St) (o : Outcome) : Except String FileResult :=
   match o with
-  | .panic m => .error m
+  | .panic m => .error m.msg
   | .fuelOut => .error "fuelOut"
   | .accept v =>
     match v with
@@ -283,7 +283,7 @@ def finish (id : String) (s : St) (o : Outcome) : Except String FileResult :=
     | _ => .error "accept: unexpected value"
   | .error e =>
     match (fromParseError e).run env |>.run s.diags with
-    | .error m => .error m
+    | .error m => .error m.msg
     | .ok (d, diags) => .ok { id, ast := none, diags := diags ++ [d] }
 
 /-- `OptAidlParser::parse` followed by the result handling of `Parser::add_content` -/
